@@ -266,6 +266,11 @@ func runGroupCase(c groupCase) *core.Failure {
 		by = in.Names() // Distinct without columns means all columns
 	}
 	groups := partitionRows(in, by, c.GroupNull)
+	// a short history: an earlier GroupBy/Distinct in the same process with the opposite Null
+	// setting and other columns (configuration must not leak from one call to the next)
+	primer := qframe.New(map[string]interface{}{"p": []float64{math.NaN(), math.NaN(), 1}, "q": []int{1, 1, 1}})
+	primer.GroupBy(groupby.Columns("p"), groupby.Null(!c.GroupNull))
+	primer.Distinct(groupby.Columns("q", "p"), groupby.Null(!c.GroupNull))
 	var fail *core.Failure
 	if c.Op == "distinct" {
 		fail = checkDistinct(c, qf, in, by, groups)
